@@ -58,13 +58,13 @@ func VerifC30StringLeaf() {
 // when MB=1, one of these multi-byte representatives (the UTF-8 decoder indexes a 256-entry table,
 // so symbolic non-ASCII bytes would only fork over all values).
 var verifIdentUnits = []string{
-	"é",         // 2-byte rune
-	"€",         // 3-byte rune
-	"\U00010041",     // 4-byte rune whose low 16 bits are 'A'
-	"\U00010031",     // 4-byte rune whose low 16 bits are '1'
-	"\U0001F600",     // 4-byte rune whose low 16 bits are no letter
-	"\xff",           // invalid UTF-8
-	"\xc3",           // truncated 2-byte sequence
+	"é",          // 2-byte rune
+	"€",          // 3-byte rune
+	"\U00010041", // 4-byte rune whose low 16 bits are 'A'
+	"\U00010031", // 4-byte rune whose low 16 bits are '1'
+	"\U0001F600", // 4-byte rune whose low 16 bits are no letter
+	"\xff",       // invalid UTF-8
+	"\xc3",       // truncated 2-byte sequence
 }
 
 const (
